@@ -122,6 +122,16 @@ class Location(Case):
                         if r is not None:
                             v["rmax"] = r
                         yield v
+        if self.params["bbox"] == "given" and self.params["lens"] == "same":
+            # float32 coordinates one rounding step outside box limits that float32 cannot hold exactly
+            import numpy as np
+
+            f32 = lambda v_: float(np.float32(v_))  # noqa: E731
+            for lons, lats in (([f32(-60.3), -65.0, f32(-70.1)], [42.0, f32(40.1), 44.0]), ([-65.0, f32(-60.3)], [f32(45.3), 42.0])):
+                v = {"n": len(lons), "lon": lons, "lat": lats, "minx": -70.1, "miny": 40.1, "maxx": -60.3, "maxy": 45.3, "dtype_lon": "float32", "dtype_lat": "float32", "keep": 1}
+                if self.params["range_max"]:
+                    v["rmax"] = 3000000
+                yield v
         if self.params["range_max"] and self.params["lens"] == "same":
             # range_max exactly at, and one float below, the real geodesic length of a hop (the distance is
             # uninterpreted in the proof; these inputs make the boundary of the hop clause replayable)
